@@ -65,6 +65,7 @@ type Contract struct {
 	Cases        *CaseSplit
 	FnDecreases  *Clause
 	Partial      bool
+	Unshared     bool
 	Reads        []string
 	Guard        *Clause
 	ExitHints    []Clause
@@ -115,6 +116,8 @@ type Engine struct {
 	Findings  []*Finding
 	assigned  map[types.Object]bool // package-level vars assigned somewhere
 	addrTaken map[*types.Var]bool   // struct fields whose address is taken (&p.f)
+	Guarded   map[string]string     // "pkg.Type.field" -> name of the mutex field protecting it
+	GuardedProps map[string][]string
 	modCache  map[*types.Func]map[string]bool
 	Warnings  []string
 }
@@ -167,7 +170,7 @@ func Load(repoDir, verifDir string, patterns []string) (*Engine, error) {
 		Funcs: map[string]*FuncInfo{}, ByObj: map[*types.Func]*FuncInfo{},
 		Contracts: map[string]*Contract{}, SpecFns: map[string]*SpecFn{},
 		RepoDir: repoDir, VerifDir: verifDir,
-		assigned: map[types.Object]bool{}, modCache: map[*types.Func]map[string]bool{}, addrTaken: map[*types.Var]bool{},
+		assigned: map[types.Object]bool{}, modCache: map[*types.Func]map[string]bool{}, addrTaken: map[*types.Var]bool{}, Guarded: map[string]string{}, GuardedProps: map[string][]string{},
 	}
 	var errs []string
 	for _, p := range pkgs {
@@ -306,6 +309,7 @@ var clauseKeywords = map[string]bool{
 	"func": true, "spec": true, "axiom": true, "instantiate": true, "nosafety": true,
 	"onlysafety": true, "unfold": true, "assert": true, "cases": true, "partial": true,
 	"lemma": true, "induction": true, "uses": true, "hint": true, "reads": true, "guard": true,
+	"guarded": true, "unshared": true,
 }
 
 var assertRe = regexp.MustCompile(`^(before|after)\s+([A-Za-z_][A-Za-z0-9_]*)#([0-9]+)\s*:\s*(.*)$`)
@@ -407,6 +411,18 @@ func (e *Engine) parseContracts(body, pkgPath, file string, line0 int) error {
 			}
 			e.Contracts[c.Key] = c
 			cur, curLoop = c, nil
+		case "guarded":
+			// guarded T.f by m: field f of struct T is protected by the mutex field m of the same object
+			fs := strings.Fields(rc.text)
+			if len(fs) < 3 || fs[1] != "by" || !strings.Contains(fs[0], ".") {
+				return fmt.Errorf("%s:%d: guarded T.f by m [for PROP...]", file, rc.line)
+			}
+			e.Guarded[pkgPath+"."+fs[0]] = fs[2]
+			if len(fs) > 4 && fs[3] == "for" {
+				// every function of the package that mentions the field must be under contract for these properties
+				e.GuardedProps[pkgPath+"."+fs[0]] = fs[4:]
+			}
+			cur, curLoop = nil, nil
 		case "spec":
 			sf, err := parseSpecFn(rc.text, pkgPath)
 			if err != nil {
@@ -443,6 +459,8 @@ func (e *Engine) parseContracts(body, pkgPath, file string, line0 int) error {
 				cur.NoSafety = true
 			case "partial":
 				cur.Partial = true
+			case "unshared":
+				cur.Unshared = true
 			case "guard":
 				cl, err := mkClause(rc)
 				if err != nil {
